@@ -290,7 +290,7 @@ func (f *Frame) applyContract(spec *UnitSpec, name string, c *ssa.CallCommon, si
 	calleeGhosts := map[string]TV{}
 	mkEnv := func(cur *State, extra map[string]TV) *Env {
 		e := &Env{u: u, st: cur, old: pre, bound: map[string]boundVar{}, pkg: pkg, qctr: &u.qctr}
-		e.lookup = func(n string) (TV, bool) {
+		e.lookup = func(e *Env, n string) (TV, bool) {
 			if extra != nil {
 				if tv, ok := extra[n]; ok {
 					return tv, true
